@@ -160,19 +160,30 @@ impl Workspace {
         let created_at_ms = now_ms();
         let checkpoint_root = self.checkpoints_dir.join(session_id).join(&checkpoint_id);
         let files_root = checkpoint_root.join("files");
+
+        // Validate every requested path and resolve it against the workspace root before the
+        // first file-system effect: a refused request leaves nothing in the checkpoint store,
+        // and what is probed and copied is the file rewind will later restore (not whatever a
+        // relative path happens to name in the process working directory).
+        let mut resolved = Vec::with_capacity(files.len());
+        for path in files {
+            let rel = self.to_relative(path)?;
+            let source = self.root.join(&rel);
+            resolved.push((rel, source));
+        }
+
         fs::create_dir_all(&files_root)?;
 
         let mut entries = Vec::new();
 
-        for path in files {
-            let rel = self.to_relative(path)?;
+        for (rel, source) in resolved {
             let dest = files_root.join(&rel);
 
-            if path.exists() {
+            if source.exists() {
                 if let Some(parent) = dest.parent() {
                     fs::create_dir_all(parent)?;
                 }
-                let bytes = fs::read(path)?;
+                let bytes = fs::read(&source)?;
                 let hash = hash_bytes(&bytes);
                 fs::write(&dest, &bytes)?;
                 entries.push(CheckpointFile {
@@ -290,9 +301,19 @@ impl Workspace {
         } else {
             self.root.join(path)
         };
-        abs.strip_prefix(&self.root)
-            .map(|p| p.to_path_buf())
-            .map_err(|_| io::Error::new(io::ErrorKind::InvalidInput, "path outside workspace"))
+        let rel = abs
+            .strip_prefix(&self.root)
+            .map_err(|_| io::Error::new(io::ErrorKind::InvalidInput, "path outside workspace"))?;
+        if rel
+            .components()
+            .any(|component| matches!(component, Component::ParentDir))
+        {
+            return Err(io::Error::new(
+                io::ErrorKind::InvalidInput,
+                "path escapes workspace root",
+            ));
+        }
+        Ok(rel.to_path_buf())
     }
 
     fn safe_join(&self, rel: &Path) -> io::Result<PathBuf> {
